@@ -83,3 +83,37 @@ theorem abort_then_cook_eq_clean (E : Env) (dev : Bool) (Γ : Path → List (Dir
     fuelB rB hB).2
   intro u hu
   exact ⟨by rw [dA u hu, dB u hu], dA u hu⟩
+
+/-- **no claim while a workspace is being modified**: whenever an invocation stops - killed, out
+of fuel, or because a script failed - right after the begin or the end of a step script in workspace
+`p` (i.e. while the script runs, after it failed, or before its result is recorded), the stored
+state claims nothing about `p`: the input hashes are gone (build and package steps) or the directory
+state lacks the variant-id key (checkout).  Holds for every project, state, flag set and
+environment: it is a property of the source order alone. -/
+theorem cut_in_script_unclaimed (E : Env) (cfg : Cfg) (T : Step) (fuel : Nat) (st : St) (p : Path)
+    (hlast : (invoke E cfg T fuel st).log.getLast? = some (.scriptBegin p) ∨
+      ∃ ok, (invoke E cfg T fuel st).log.getLast? = some (.scriptEnd p ok)) :
+    NoClaim (invoke E cfg T fuel st).st p := by
+  have h := (logsafe_cook (E := E) cfg T).1 cfg.checkoutOnly { st := st, mem := Mem.init, fuel := fuel, log := [] }
+    (by intro q hq; simp [lastOp] at hq)
+  unfold invoke cook at hlast ⊢
+  unfold wp at h
+  cases hr : cookStep E cfg cfg.checkoutOnly T { st := st, mem := Mem.init, fuel := fuel, log := [] } with
+  | ok a r' => rw [hr] at h hlast; exact h p hlast
+  | abort r' => rw [hr] at h hlast; exact h p hlast
+
+/-- the log-level reading of "Bob never treats a step as up to date whose workspace was left
+incomplete": after a cut inside the script of `p`, the next successful invocation of a project that
+contains a step at `p` starts that script again.  Kept as goal: proved are its two halves,
+`cut_in_script_unclaimed` (nothing is claimed at such a cut, so every skip test fails) and
+`abort_then_cook_eq_clean` (the next successful invocation leaves the from-scratch content in `p`). -/
+def no_false_uptodate_goal : Prop :=
+  ∀ (E : Env) (dev : Bool) (Γ : Path → List (Dir × Digest)) (cfg cfg' : Cfg) (T T' : Step) (fuel fuel' : Nat) (st : St)
+    (p : Path) (r' : Run),
+    Function.Injective E.H → Truthful E dev Γ st → AllWF Γ T → TreeWF Γ T' →
+    (invoke E cfg T fuel st).log.getLast? = some (.scriptBegin p) →
+    (∃ u ∈ reach T', u.path = p) →
+    invoke E cfg' T' fuel' (invoke E cfg T fuel st).st = .ok () r' →
+    Op.scriptBegin p ∈ r'.log
+
+end C05
